@@ -113,6 +113,12 @@ func VerifC20Hook() {
 	} else if symbolic || link != "" {
 		verifrt.Assert(stdinSet && gotStdin == link, "link-on-stdin-when-no-url-placeholder")
 	}
+	// the configured hook itself is left as it was (a second open must see the placeholders again)
+	cfgSame := len(config.Parsed.Media.Hook) == K
+	for i := 1; i < K && cfgSame; i++ {
+		cfgSame = config.Parsed.Media.Hook[i] == hook[i]
+	}
+	verifrt.Assert(cfgSame, "configured-hook-is-not-modified")
 	verifrt.Observe("args", gotArgs)
 	verifrt.Observe("stdin", gotStdin)
 	verifrt.Reach("end")
